@@ -96,10 +96,13 @@ func (t *Thread) RunContinuation(c Cont) (err error) {
 	var errContCount = 0
 	_ = t.triggerCall(t, c)
 	for c != nil {
+		// The continuation that has just run may have gone back to its pool: c is
+		// what the thread is running from now on, also for the finalizers below
+		// (they can look at this thread's stack).
+		t.currentCont = c
 		if t != t.gcThread {
 			t.runPendingFinalizers()
 		}
-		t.currentCont = c
 		next, err = c.RunInThread(t)
 		if err != nil {
 			rtErr := ToError(err)
